@@ -1,4 +1,6 @@
 import Driver.Tree
+import Driver.FsDrv
+import Driver.TableDrv
 /-
   Driver.Main — `lsmdrv`: one request per line on stdin, one canonical answer per line on stdout.
   The answers are computed by the very definitions the theorems in `LsmModel/Props` are about.
@@ -122,10 +124,14 @@ def fnVt (a : List (String × String)) : String :=
     | none => "invalid"
   | none => bad "vt"
 
-def treeCmds : List String := ["write", "rotate", "flush", "merge", "move", "drop", "clear", "ingest", "reopen"]
+def treeCmds : List String := ["write", "rotate", "flush", "flushcommit", "merge", "move", "drop", "clear", "ingest", "reopen"]
 def treeQueries : List String := ["get", "scan", "admissible", "choose", "hwm", "digest", "dump"]
 
-def handle (t : TS) (line : String) : TS × String :=
+structure DS where
+  t : TS
+  f : FsSt
+
+def handleTree (t : TS) (line : String) : TS × String :=
   match line.trimAscii.toString.splitOn " " with
   | [] => (t, bad "empty")
   | cmd :: rest =>
@@ -145,7 +151,7 @@ where handlePure (cmd : String) (a : List (String × String)) : String :=
     | "cstream" => fnCstream false a
     | "cstreamlegacy" => fnCstream true a
     | "mvcc" => fnMvcc a
-    | "merge" => fnMerge a
+    | "kmerge" => fnMerge a
     | "optimize" => fnOptimize a
     | "getforkey" => fnGetForKey a
     | "overlap" => fnOverlap a
@@ -158,9 +164,22 @@ where handlePure (cmd : String) (a : List (String × String)) : String :=
     | "prefix" => fnPrefix a
     | "memtable" => fnMemtable a
     | "vt" => fnVt a
-    | _ => bad ("unknown-command " ++ cmd)
+    | _ => (handleTableCmd cmd a).getD (bad ("unknown-command " ++ cmd))
 
-partial def loop (hin : IO.FS.Stream) (hout : IO.FS.Stream) (t : TS) : IO Unit := do
+def handle (s : DS) (line : String) : DS × String :=
+  match line.trimAscii.toString.splitOn " " with
+  | "fsinit" :: rest =>
+    match fsInit (parseArgs rest) with
+    | some f => ({ s with f := f }, "ok")
+    | none => (s, bad "fsinit")
+  | "fsop" :: rest =>
+    let r := fsOp s.f (parseArgs rest)
+    ({ s with f := r.1 }, r.2)
+  | _ =>
+    let r := handleTree s.t line
+    ({ s with t := r.1 }, r.2)
+
+partial def loop (hin : IO.FS.Stream) (hout : IO.FS.Stream) (t : DS) : IO Unit := do
   let line ← hin.getLine
   if line.isEmpty then return ()
   let (t', out) := handle t line
@@ -171,4 +190,4 @@ partial def loop (hin : IO.FS.Stream) (hout : IO.FS.Stream) (t : TS) : IO Unit :
 end Drv
 
 def main : IO Unit := do
-  Drv.loop (← IO.getStdin) (← IO.getStdout) Lsm.TreeState.init
+  Drv.loop (← IO.getStdin) (← IO.getStdout) { t := Lsm.TreeState.init, f := { cur := { id := 0, files := [] }, fs := Lsm.Fs.Fs.ofVersion { id := 0, files := [] } } }
